@@ -34,6 +34,11 @@
 bool g_saw0;
 size_t g_line_0, g_col_0, g_pos_0, g_nl;
 const char *g_file0;
+/* the state the stand-in comment_spec() (scan_common.h), which replaces comment() in SCAN.loc, produces from the same
+   pre-state (not run when it would diagnose) */
+bool g_e_run, g_e_ret, g_e_saw;
+int g_e_chr;
+size_t g_e_li, g_e_pos, g_e_line, g_e_col;
 
 extern int g_no_error;   /* stubs/base.c: reaching error() while set is a failed obligation */
 
@@ -48,7 +53,7 @@ extern int g_no_error;   /* stubs/base.c: reaching error() while set is a failed
 #define PRE(X) \
 	X(s != 0 && s->file == ghost_file()) \
 	X(g_in_n <= G_IN_MAX && g_m <= GS_LMAX && gs_canonical()) \
-	X(AT(s, 0) && g_li == 0) \
+	X(AT(s, 0) && g_li == 0 && SYNC_ABS(s)) \
 	X(!s->usebuf && s->buf.len == 0) \
 	X(g_saw0 == s->sawspace && g_line_0 == s->loc.line && g_col_0 == s->loc.col && g_pos_0 == g_in_pos && g_file0 == s->loc.file)
 
@@ -67,6 +72,11 @@ extern int g_no_error;   /* stubs/base.c: reaching error() while set is a failed
 	X(IMP(C0 == '/' || C0 == '*', s->sawspace)) \
 	/* C11: the comment's physical lines are counted (new-lines inside a block comment, splices anywhere) */ \
 	X(s->loc.line == g_line_0 + NL_CONSUMED) \
+	/* ... and the location is that of the character the scanner now stands on */ \
+	X(SYNC_ABS(s)) \
+	/* refinement: exactly the state of the stand-in that replaces comment() in scankind's unit SCAN.loc */ \
+	X(IMP(g_e_run, RET == g_e_ret && s->chr == g_e_chr && g_li == g_e_li && g_in_pos == g_e_pos)) \
+	X(IMP(g_e_run, s->loc.line == g_e_line && s->loc.col == g_e_col && s->sawspace == g_e_saw)) \
 	/* no spelling is collected for a comment; frame */ \
 	X(!s->usebuf && s->buf.len == 0) \
 	X(s->file == ghost_file() && s->next == 0 && s->loc.file == g_file0) \
@@ -85,7 +95,7 @@ harness(void)
 	IN(bool, in_saw);
 
 	__CPROVER_assume(in_m <= GS_LMAX);
-	__CPROVER_assume(in_line < ((size_t)1 << 32) && in_col < ((size_t)1 << 32));
+	__CPROVER_assume(in_line < ((size_t)1 << 32) && in_col >= 1 && in_col < ((size_t)1 << 32));
 	g_L[0] = (unsigned char)(in_c0 >> 0); g_L[1] = (unsigned char)(in_c0 >> 8); g_L[2] = (unsigned char)(in_c0 >> 16);
 	g_L[3] = (unsigned char)(in_c0 >> 24); g_L[4] = (unsigned char)(in_c0 >> 32); g_L[5] = (unsigned char)(in_c0 >> 40);
 	g_L[6] = (unsigned char)(in_c0 >> 48); g_L[7] = (unsigned char)(in_c0 >> 56);
@@ -97,8 +107,20 @@ harness(void)
 	g_line0 = 1; g_col0 = 0;
 	gs_build(in_m);
 	__CPROVER_assume(gs_canonical());
-	s = gs_scanner_at0(in_saw, true, false, in_line, in_col);
+	g_pl0 = in_line; g_pc0 = in_col;
+	gs_abs_tables();
+	s = gs_scanner_at0(in_saw, true, false, g_pl0 + (g_L[0] == '\n'), g_L[0] == '\n' ? 0 : g_pc0);
 	g_saw0 = s->sawspace; g_line_0 = s->loc.line; g_col_0 = s->loc.col; g_pos_0 = g_in_pos; g_file0 = s->loc.file;
+	g_e_run = !(C0 == '*' && !BC_CLOSED);
+	if (g_e_run) {
+		static struct scanner sc2;
+
+		sc2 = *s;
+		g_e_ret = comment_spec(&sc2);
+		g_e_chr = sc2.chr; g_e_li = g_li; g_e_pos = g_in_pos; g_e_line = sc2.loc.line; g_e_col = sc2.loc.col;
+		g_e_saw = sc2.sawspace;
+		g_li = 0; g_in_pos = g_pos_0; g_unget_depth = 0; g_unget_max = 0; g_getc_calls = 0;
+	}
 	/* a terminated (or absent, or line) comment must not be diagnosed: reaching error() is then a failed obligation */
 	g_no_error = !(C0 == '*' && !BC_CLOSED);
 	HCALLR(bool, PRE, POST, comment(s));
